@@ -68,8 +68,10 @@ def paths(edges, max_len, rng, limit):
 
 SHAPES = {
     "linear": [dict(width=3, depth=1), dict(width=5, depth=3), dict(width=1, depth=1)],
-    "log16": [dict(width=3, depth=1), dict(width=5, depth=3), dict(width=7, depth=1), dict(width=3, depth=3, max_count=10**6, num_reserved=200)],
-    "log8": [dict(width=3, depth=1), dict(width=5, depth=3), dict(width=13, depth=1), dict(width=7, depth=3, max_count=70000, num_reserved=40)],
+    "log16": [dict(width=3, depth=1), dict(width=5, depth=3), dict(width=7, depth=1), dict(width=3, depth=3, max_count=10**6, num_reserved=200),
+              dict(width=2, depth=2, max_count=2**32 - 1, num_reserved=0, random=True)],
+    "log8": [dict(width=3, depth=1), dict(width=5, depth=3), dict(width=13, depth=1), dict(width=7, depth=3, max_count=70000, num_reserved=40),
+             dict(width=3, depth=1, max_count=10**6, num_reserved=0, random=True)],
     "hll": [dict(p=7, seed=0), dict(p=8, seed=2**63)],
     "hh": [dict(width=3, depth=1, max_key_len=3), dict(width=1, depth=1, max_key_len=1), dict(width=5, depth=3, max_key_len=7)],
 }
@@ -139,6 +141,8 @@ def replay(report, path, kind, shape, rng, from_file=False):
         twin.save(saved)
     name = None
     scen = {"class": kind, "shape": {k: str(v) for k, v in shape.items()}, "ops": path, "owner_from_file": from_file}
+    if shape.get("random"):
+        from_file = False
 
     def bad(msg, step):
         report.violation("shared-memory replay %s: step %d %s: %s" % (json.dumps(scen)[:500], step, json.dumps(path[step]), msg),
@@ -192,7 +196,11 @@ def replay(report, path, kind, shape, rng, from_file=False):
             # every live handle and the twin project to the same state
             want = state_of(twin)
             for hname, h in [("owner", owner)] + [("view%d" % k, v) for k, v in views.items()]:
-                if h is not None and state_of(h) != want:
+                # (num_reserved = 0: every add beyond the first is randomised, handles draw from their own
+                # batches, so only the counters of owner and views -- one block -- are compared)
+                if h is not None and shape.get("random") and owner is not None and state_of(h) != state_of(owner):
+                    return bad("%s and the owner observe different states" % hname, i)
+                if h is not None and not shape.get("random") and state_of(h) != want:
                     return bad("%s observes a state different from the in-memory twin's" % hname, i)
                 if h is not None and public_params(h) != public_params(twin):
                     return bad("%s has parameters %s, an ordinary sketch of the same arguments %s" % (
